@@ -15,6 +15,7 @@ var props = map[string]func(tier string) []Scen{
 	"C13": scenariosC13,
 	"C14": scenariosC14,
 	"C17": scenariosC17,
+	"C18": scenariosC18,
 	"C15": scenariosC15,
 	"C16": scenariosC16,
 }
@@ -26,12 +27,14 @@ var rules = map[string]string{
 	"C10": ruleA + "; scenarios = frame-kind sequences (valid calls, wrong-shape JSON, invalid JSON, empty frame, 5 KiB frame, unterminated tail) x the byte offset at which the client stops x how it goes away (half-close, close, abort) x injected reply-write failure, with a well-behaved probe connection and a final Shutdown; schedule deviations are explored at frame-boundary offsets",
 	"C13": ruleA + "; scenarios = all histories up to the length bound over {register(name, description) for 6 name/description pairs incl. duplicates, the built-in name and a resolver, serve, shutdown, query}; a query runs the library's own client helpers (GetInfo, GetInterfaceDescription for every mentioned name, its prefix, case variant and extension, Resolver.GetInfo/Resolve) over a controlled connection and compares with a list+map reference model",
 	"C14": ruleA,
+	"C18": "bounded-exhaustive enumeration, each case executed once (default schedule; end-to-end cases with up to 2 schedule deviations) on the real ctxio.Conn over a controlled connection: all words up to the length bound over {ReadBytes(NUL), Read(1), Read(2), Read(7), Read(4096), Read(8192)} x 13 streams (0-2 frames incl. 4095/4096/4097-byte frames, payloads incl. one containing NUL and one larger than the reader's buffer) x segmentations (none, every 1-cut, 2-cuts, one byte per segment; boundary offsets for long streams); oracle = cursor into the stream; states = distinct cases, transitions = scheduling steps, distinct_nontrivial = distinct observations",
 	"C17": ruleA + "; scenarios = sequences of <=3 operations {ReadBytes, raw Read, Write} on a ctxio connection, the first 1-2 under a cancellable context x cancel|deadline x 3 segmentations of the peer stream x a coarse gate (operation index, chunks written) after which the cancellation step becomes enabled; the scheduler then places the cancellation (and, for deadlines, the connection's own deadline expiry, in both orders) at every point within the bound",
 	"C16": ruleA + "; in every execution a vector-clock happens-before monitor (edges: spawn, thread end->WaitGroup.Wait, Unlock->Lock, channel send->receive, cancel->observing Done, peer write->read, SetDeadline/Close->the I/O they fail) checks every instrumented read/write of a field of a struct declared in packages varlink/ctxio (fields never written after construction are skipped) for a conflicting HB-unordered access",
 	"C15": ruleA + "; accept-deadline expiries are events of a timer thread, enabled whenever the controlled listener is armed, so the explorer places each expiry at every instant",
 }
 
 var assumptions = map[string][]string{
+	"C18": {"a read on the controlled connection returns (a prefix of) the oldest unread segment, so segment boundaries are exactly the listed cuts; Coalesce models the network merging two writes", "streams are a small alphabet chosen around the 4096-byte bufio buffer"},
 	"C13": {"reference model: names in registration order after org.varlink.service, descriptions verbatim, registration refused iff duplicate or serving (serving = the serving call is blocked in Accept)", "identity and description strings are valid UTF-8 from a small adversarial alphabet incl. a 76 KiB description", "the race aspect of registering while serving is C16's"},
 	"C17": {"vnet.Conn implements the documented net.Conn deadline semantics (a deadline in the past fails pending and future I/O with a Timeout error, the zero deadline clears it); whether a real transport does is the subject of the separate transport matrix", "a context deadline is a far-future time plus two events: the context expiring and the connection deadline firing", "stream oracle: bytes may be lost only if they had arrived before a cancelled operation returned"},
 	"C10": {"classifyCall restates 'a JSON value of the call's shape' with encoding/json used only as a generic decoder", "when the peer has closed or aborted, what was answered and dispatched must be a prefix of the reference (how far the service got is schedule dependent); with a half-close it must equal the reference", "vnet: abort discards unread data and fails reads with ECONNRESET, writes to a closed or aborted peer fail with EPIPE"},
